@@ -3017,7 +3017,7 @@ func (s *ImmuStore) ReplicateTx(ctx context.Context, exportedTx []byte, skipInte
 		mdLen := int(binary.BigEndian.Uint16(exportedTx[i:]))
 		i += sszSize
 
-		if len(exportedTx) < i+mdLen {
+		if len(exportedTx) < i+mdLen+lszSize {
 			return nil, ErrIllegalArguments
 		}
 
@@ -3055,6 +3055,9 @@ func (s *ImmuStore) ReplicateTx(ctx context.Context, exportedTx []byte, skipInte
 	// check if there is truncated value information in the transaction
 	if i < len(exportedTx) {
 		// information for truncated value
+		if len(exportedTx) < i+sszSize {
+			return nil, ErrIllegalArguments
+		}
 		tLen := int(binary.BigEndian.Uint16(exportedTx[i:]))
 		i += sszSize
 		if len(exportedTx) < i+tLen {
@@ -3064,7 +3067,7 @@ func (s *ImmuStore) ReplicateTx(ctx context.Context, exportedTx []byte, skipInte
 		v := exportedTx[i : i+tLen]
 		// v[0] == 1 means that the value is truncated
 		// validate that the value is either 0 or 1
-		if len(v) > 0 && v[0] > 1 {
+		if len(v) == 0 || v[0] > 1 {
 			return nil, ErrIllegalTruncationArgument
 		}
 		isTruncated = v[0] == 1
